@@ -3,7 +3,12 @@ use std::io::{BufRead, BufReader, Write};
 use std::path::{Path, PathBuf};
 use std::process::{Command, Stdio};
 use std::sync::mpsc::{channel, Receiver, RecvTimeoutError};
+use std::sync::{Arc, Mutex};
 use std::time::Duration;
+
+/// bytes of the child's stderr kept (tail); enough for the runtime's "has overflowed its stack" line
+const STDERR_TAIL: usize = 4096;
+type ErrBuf = Arc<Mutex<Vec<u8>>>;
 
 pub enum Reply {
     Line(String),
@@ -17,9 +22,19 @@ pub struct Child {
     proc_: std::process::Child,
     stdin: Option<std::process::ChildStdin>,
     rx: Receiver<Option<String>>,
+    err: ErrBuf,
+    err_thread: Option<std::thread::JoinHandle<()>>,
 }
 
-fn start(id: &str, root: &Path) -> (std::process::Child, std::process::ChildStdin, Receiver<Option<String>>) {
+struct Started {
+    proc_: std::process::Child,
+    stdin: std::process::ChildStdin,
+    rx: Receiver<Option<String>>,
+    err: ErrBuf,
+    err_thread: std::thread::JoinHandle<()>,
+}
+
+fn start(id: &str, root: &Path) -> Started {
     let exe = std::env::current_exe().expect("current_exe");
     let mut c = Command::new(exe)
         .arg("--worker")
@@ -27,11 +42,31 @@ fn start(id: &str, root: &Path) -> (std::process::Child, std::process::ChildStdi
         .env("VERIF_ROOT", root)
         .stdin(Stdio::piped())
         .stdout(Stdio::piped())
-        .stderr(Stdio::null())
+        .stderr(Stdio::piped())
         .spawn()
         .expect("spawn worker");
     let stdin = c.stdin.take().unwrap();
     let stdout = c.stdout.take().unwrap();
+    let mut stderr = c.stderr.take().unwrap();
+    let err: ErrBuf = Arc::new(Mutex::new(Vec::new()));
+    let err2 = err.clone();
+    let err_thread = std::thread::spawn(move || {
+        use std::io::Read;
+        let mut buf = [0u8; 1024];
+        loop {
+            match stderr.read(&mut buf) {
+                Ok(0) | Err(_) => break,
+                Ok(n) => {
+                    let mut v = err2.lock().unwrap();
+                    v.extend_from_slice(&buf[..n]);
+                    if v.len() > 2 * STDERR_TAIL {
+                        let cut = v.len() - STDERR_TAIL;
+                        v.drain(..cut);
+                    }
+                }
+            }
+        }
+    });
     let (tx, rx) = channel();
     std::thread::spawn(move || {
         let r = BufReader::new(stdout);
@@ -47,22 +82,36 @@ fn start(id: &str, root: &Path) -> (std::process::Child, std::process::ChildStdi
         }
         let _ = tx.send(None);
     });
-    (c, stdin, rx)
+    Started { proc_: c, stdin, rx, err, err_thread }
 }
 
 impl Child {
     pub fn spawn(id: &str, root: &Path) -> Child {
-        let (proc_, stdin, rx) = start(id, root);
-        Child { id: id.to_string(), root: root.to_path_buf(), proc_, stdin: Some(stdin), rx }
+        let s = start(id, root);
+        Child { id: id.to_string(), root: root.to_path_buf(), proc_: s.proc_, stdin: Some(s.stdin), rx: s.rx, err: s.err, err_thread: Some(s.err_thread) }
     }
 
     pub fn respawn(&mut self) {
         let _ = self.proc_.kill();
         let _ = self.proc_.wait();
-        let (proc_, stdin, rx) = start(&self.id, &self.root);
-        self.proc_ = proc_;
-        self.stdin = Some(stdin);
-        self.rx = rx;
+        if let Some(h) = self.err_thread.take() {
+            let _ = h.join();
+        }
+        let s = start(&self.id, &self.root);
+        self.proc_ = s.proc_;
+        self.stdin = Some(s.stdin);
+        self.rx = s.rx;
+        self.err = s.err;
+        self.err_thread = Some(s.err_thread);
+    }
+
+    /// Tail of what the (dead) child wrote to stderr.  Call after `Reply::Died`: the child has been waited for, so
+    /// the reader thread sees EOF and the tail is complete.
+    pub fn stderr_tail(&mut self) -> String {
+        if let Some(h) = self.err_thread.take() {
+            let _ = h.join();
+        }
+        String::from_utf8_lossy(&self.err.lock().unwrap()).into_owned()
     }
 
     pub fn call(&mut self, req: &str, timeout_s: u64) -> Reply {
@@ -107,5 +156,8 @@ impl Drop for Child {
         self.stdin = None;
         let _ = self.proc_.kill();
         let _ = self.proc_.wait();
+        if let Some(h) = self.err_thread.take() {
+            let _ = h.join();
+        }
     }
 }
